@@ -97,6 +97,40 @@ Section Loop.
     apply loop_invariant; [exact Hn|lia|].
     unfold prfplus_fuel. lia.
   Qed.
+
+  (** beyond 255 blocks the one-octet counter overflows: [i.to_bytes(1, 'big')] raises OverflowError at i = 256 *)
+  Lemma loop_overflow K Sd (n : Z) : 255 * Z.of_nat hlen < n ->
+    forall fuel j, (j <= 255)%nat -> (257 <= fuel + j)%nat ->
+      prfplus_loop hmac fuel h K Sd n (upto (hmac h) K Sd j) (T (hmac h) K Sd j) (Z.of_nat j + 1)
+      = Raise OverflowError.
+  Proof.
+    intros Hn. induction fuel as [|fuel IH]; intros j Hj Hfuel; [lia|].
+    cbn [prfplus_loop]. rewrite (upto_length (hmac h) hlen hmac_len).
+    replace (Z.of_nat (j * hlen) <? n) with true by nia.
+    destruct (Nat.eq_dec j 255) as [->|Hne].
+    - reflexivity.
+    - rewrite counter_octet by lia. cbn [bind]. unfold prfplus_block, prfplus_i_next.
+      rewrite <- (app_assoc (T (hmac h) K Sd j) Sd), <- (T_succ (hmac h)).
+      rewrite <- upto_succ.
+      replace (Z.of_nat j + 1 + 1) with (Z.of_nat (S j) + 1) by lia.
+      apply IH; lia.
+  Qed.
+
+  Lemma prfplus_overflow K Sd (n : Z) : 255 * Z.of_nat hlen < n -> prfplus hmac h K Sd n = Raise OverflowError.
+  Proof.
+    intros Hn. unfold prfplus.
+    change [] with (upto (hmac h) K Sd 0) at 1.
+    change (@nil N) with (T (hmac h) K Sd 0) at 1.
+    change prfplus_i0 with (Z.of_nat 0 + 1).
+    apply loop_overflow; [exact Hn|lia|]. unfold prfplus_fuel. lia.
+  Qed.
+
+  Lemma prfplus_negative K Sd (n : Z) : n < 0 -> prfplus hmac h K Sd n = Ok [].
+  Proof.
+    intros Hn. unfold prfplus, prfplus_fuel. change (Z.to_nat 257) with (S (Z.to_nat 256)).
+    cbn [prfplus_loop length]. replace (Z.of_nat 0 <? n) with false by lia.
+    replace (Z.to_nat n) with 0%nat by lia. reflexivity.
+  Qed.
 End Loop.
 
 (* ------------------------------------------------------------------------------------------- *)
